@@ -516,3 +516,118 @@ Proof.
   - intros m0 r0 Hb. apply (J m0 r0). destruct (_ && negb (isz (sto s r0 m0))); [discriminate|exact Hb].
   - intros r0 Hr0. apply andb_true_iff in Hr0 as [Hr0 _]. apply (K r0 Hr0).
 Qed.
+
+Lemma scaled_zero a c : c <> q0 -> ((a * c)%Qc = q0 <-> a = q0).
+Proof.
+  intros Hc. split.
+  - intros H. destruct (Qcmult_integral _ _ H) as [E|E]; [exact E|contradiction].
+  - intros ->. unfold q0. ring.
+Qed.
+
+Lemma scale_Inv x r c f :
+  Inv x -> c <> q0 -> (forall m, f m = (sto x r m * c)%Qc) ->
+  Inv (if rin x r then populate r (set_sto x (upd (sto x) r f)) else set_sto x (upd (sto x) r f)).
+Proof.
+  intros HI Hc Hf.
+  assert (Hz : forall m, f m = q0 <-> sto x r m = q0) by (intros m; rewrite Hf; apply scaled_zero; exact Hc).
+  assert (Hiz : forall m, isz (f m) = isz (sto x r m)).
+  { intros m. destruct (isz (sto x r m)) eqn:E.
+    - apply isz_true. apply Hz. apply isz_true. exact E.
+    - apply isz_false. intros H. apply Hz in H. apply isz_false in E. contradiction. }
+  destruct HI as [A B C D E G H I J K].
+  destruct (rin x r) eqn:Er.
+  - unfold populate, update_variable_bounds. cbn [rin set_sto]. rewrite Er. cbn [lb ub set_sto].
+    destruct (split_bounds (lb x r) (ub x r)) as [[fl fu] [rl ru]] eqn:Es.
+    unfold var_set_bounds, set_vb, set_co, set_sto. cbn. rewrite !upd_same.
+    constructor; cbn; try assumption.
+    + intros r0 Hr0. names. destruct (Z.eqb_spec r0 r) as [E0|Hne]; [subst r0; rewrite Es; reflexivity|].
+      apply B. exact Hr0.
+    + intros m r0. names. destruct (Z.eqb_spec r0 r) as [E0|Hne]; [subst r0|].
+      * rewrite upd_same, Er. cbn [andb]. rewrite Hiz.
+        destruct (D m r) as [D1 D2]. rewrite Er in D1, D2. cbn [andb] in D1, D2.
+        destruct (isz (sto x r m)) eqn:Ez; cbn [negb].
+        -- rewrite D1, D2. apply isz_true in Ez. assert (f m = q0) by (apply Hz; exact Ez).
+           rewrite H0, Ez, opp_q0, !if_same. tauto.
+        -- apply isz_false in Ez. destruct (G r m Er Ez) as [X _]. rewrite X. tauto.
+      * rewrite upd_other by exact Hne. cbn [andb]. apply D.
+    + intros r0 m Hr0 Hs. destruct (Z.eqb_spec r0 r) as [E0|Hne]; [subst r0|].
+      * rewrite upd_same in Hs. apply (G r m Er). intros Hq. apply Hs. apply Hz. exact Hq.
+      * rewrite upd_other in Hs by exact Hne. apply (G r0 m Hr0 Hs).
+    + intros m r0 Hb. destruct (H m r0 Hb) as [X [Y Z]]. split; [exact X|]. split; [exact Y|].
+      destruct (Z.eqb_spec r0 r) as [E0|Hne]; [subst r0|].
+      * rewrite upd_same. intros Hq. apply Z. apply Hz. exact Hq.
+      * rewrite upd_other by exact Hne. exact Z.
+    + intros r0 m Hs. destruct (Z.eqb_spec r0 r) as [E0|Hne]; [subst r0|].
+      * rewrite upd_same in Hs. apply (I r m). intros Hq. apply Hs. apply Hz. exact Hq.
+      * rewrite upd_other in Hs by exact Hne. apply (I r0 m Hs).
+  - unfold set_sto. constructor; cbn; try assumption.
+    + intros m r0. destruct (Z.eqb_spec r0 r) as [E0|Hne]; [subst r0|].
+      * destruct (D m r) as [D1 D2]. rewrite Er in *. cbn [andb] in *. tauto.
+      * rewrite upd_other by exact Hne. apply D.
+    + intros r0 m Hr0 Hs. destruct (Z.eqb_spec r0 r) as [E0|Hne]; [subst r0; congruence|].
+      rewrite upd_other in Hs by exact Hne. apply (G r0 m Hr0 Hs).
+    + intros m r0 Hb. destruct (H m r0 Hb) as [X [Y Z]].
+      destruct (Z.eqb_spec r0 r) as [E0|Hne]; [subst r0; congruence|]. rewrite upd_other by exact Hne. tauto.
+    + intros r0 m Hs. destruct (Z.eqb_spec r0 r) as [E0|Hne]; [subst r0|].
+      * rewrite upd_same in Hs. apply (I r m). intros Hq. apply Hs. apply Hz. exact Hq.
+      * rewrite upd_other in Hs by exact Hne. apply (I r0 m Hs).
+Qed.
+
+(* the bounds setters touch only the bounds and the variable bounds *)
+Lemma raw_set_bounds_frame r l u s :
+  rin (raw_set_bounds r l u s) = rin s /\ sto (raw_set_bounds r l u s) = sto s.
+Proof.
+  unfold raw_set_bounds, update_variable_bounds. cbn [rin set_lbub].
+  destruct (rin s r); [|split; reflexivity].
+  cbn [lb ub set_lbub]. destruct (split_bounds _ _) as [[? ?] [? ?]]. split; reflexivity.
+Qed.
+Lemma set_bounds_frame r l u s :
+  rin (fst (set_bounds r l u s)) = rin s /\ sto (fst (set_bounds r l u s)) = sto s.
+Proof.
+  unfold set_bounds. destruct (rctx s r && eb_eqb (lb s r) l && eb_eqb (ub s r) u); [split; reflexivity|].
+  destruct (eb_gt l u); cbn [fst].
+  - destruct (rctx s r); [rewrite rin_record, sto_record|]; split; reflexivity.
+  - destruct (raw_set_bounds_frame r l u (if rctx s r then record (USetBounds r (lb s r) (ub s r)) s else s)) as [X Y].
+    rewrite X, Y. destruct (rctx s r); [rewrite rin_record, sto_record|]; split; reflexivity.
+Qed.
+
+Lemma imul_Inv s r c : Inv s -> c <> q0 -> Inv (imul r c s).
+Proof.
+  intros HI Hc. unfold imul.
+  set (s1 := if qlt c q0 then fst (set_bounds r (eb_opp (ub s r)) (eb_opp (lb s r)) s) else s).
+  assert (H1 : Inv s1) by (unfold s1; destruct (qlt c q0); [apply set_bounds_Inv|]; exact HI).
+  assert (F1 : rin s1 = rin s /\ sto s1 = sto s).
+  { unfold s1. destruct (qlt c q0); [apply set_bounds_frame|split; reflexivity]. }
+  destruct F1 as [Fr Fs].
+  pose proof (scale_Inv s1 r c (fun m => (sto s r m * c)%Qc) H1 Hc) as H3.
+  cbn [rin set_sto] in *.
+  match goal with |- Inv (if rctx ?x r then _ else _) => assert (Hx : Inv x) end.
+  { apply H3. intros m. rewrite Fs. reflexivity. }
+  destruct (rctx _ r); [apply Inv_record, Inv_record|]; exact Hx.
+Qed.
+
+(* ---------- every operation of the kernel other than leaving a context ---------- *)
+Definition op_ok (o : op) : Prop := match o with Imul _ c => c <> q0 | Exit => False | _ => True end.
+
+Theorem step_Inv s o : Inv s -> op_ok o -> Inv (fst (step s o)).
+Proof.
+  intros HI Hok. destruct o; cbn [step op_ok] in *.
+  - exact (new_rxn_Inv s r l u st0 HI).
+  - cbn [fst]. apply add_rxn_Inv; [apply note_ids_Inv; exact HI|apply note_ids_rids; left; reflexivity].
+  - cbn [fst]. apply remove_rxn_Inv. exact HI.
+  - apply (add_met_Inv s m HI).
+  - cbn [fst]. destruct destructive; [apply remove_met_d_Inv|apply remove_met_nd_Inv]; exact HI.
+  - apply set_bounds_Inv. exact HI.
+  - apply set_lb_Inv. exact HI.
+  - apply set_ub_Inv. exact HI.
+  - apply set_bounds_Inv. exact HI.
+  - apply add_st_Inv; [apply note_ids_Inv; exact HI|]. intros m Hm. apply note_ids_mids. exact Hm.
+  - apply add_st_Inv; [apply note_ids_Inv; exact HI|]. intros m Hm. apply note_ids_mids.
+    unfold touched, neg_list in Hm. rewrite map_map in Hm. cbn in Hm. exact Hm.
+  - apply set_obj_Inv. exact HI.
+  - destruct (rin s r); [apply set_obj_Inv|]; exact HI.
+  - cbn [fst]. apply set_dir_Inv. exact HI.
+  - cbn [fst]. apply imul_Inv; assumption.
+  - cbn [fst]. apply Inv_ctx. exact HI.
+  - contradiction.
+Qed.
